@@ -195,7 +195,7 @@ fn validate_tolerance(
             let distance_meters = haversine::coord_distance_meters(src, dst)
                 .map_err(InputPluginError::InputPluginFailed)?;
             let distance = DistanceUnit::Meters.convert(&distance_meters, tolerance_distance_unit);
-            if &distance >= tolerance_distance {
+            if &distance > tolerance_distance {
                 Err(InputPluginError::InputPluginFailed(
                     format!(
                         "coord {:?} nearest vertex coord is {:?} which is {} {} away, exceeding the distance tolerance of {} {}", 
